@@ -12,6 +12,29 @@ impl<K: Eq + Hash, V, S: BuildHasher> HashMap<K, V, S> {
         HashMap(std::collections::HashMap::with_capacity_and_hasher(sched::capped_capacity(cap), hasher))
     }
 }
+impl<K, V, S: Default> Default for HashMap<K, V, S> {
+    fn default() -> Self {
+        HashMap(std::collections::HashMap::default())
+    }
+}
+impl<K: Eq + Hash, V, S: BuildHasher + Default> HashMap<K, V, S> {
+    pub fn with_hasher(hasher: S) -> Self {
+        HashMap(std::collections::HashMap::with_hasher(hasher))
+    }
+}
+impl<K: Eq + Hash, V> HashMap<K, V, std::collections::hash_map::RandomState> {
+    pub fn new() -> Self {
+        HashMap(std::collections::HashMap::new())
+    }
+    pub fn with_capacity(cap: usize) -> Self {
+        HashMap(std::collections::HashMap::with_capacity(sched::capped_capacity(cap)))
+    }
+}
+impl<K: std::fmt::Debug, V: std::fmt::Debug, S> std::fmt::Debug for HashMap<K, V, S> {
+    fn fmt(&self, f: &mut std::fmt::Formatter<'_>) -> std::fmt::Result {
+        self.0.fmt(f)
+    }
+}
 impl<K, V, S> Deref for HashMap<K, V, S> {
     type Target = std::collections::HashMap<K, V, S>;
     fn deref(&self) -> &Self::Target {
